@@ -255,10 +255,11 @@ def run_batch(spec, seed, KdqTreeBatch, KDQTreePartitioner):
         np.random.seed(seed_of(seed, spec["id"], i))
         with Tap() as tap:
             try:
+                Xf = X.astype(spec["dtype"]) if spec.get("dtype") else X.copy()     # integral data handed over in a narrow integer dtype
                 if kind == "setref":
-                    det.set_reference(X.copy())
+                    det.set_reference(Xf)
                 else:
-                    det.update(X.copy())
+                    det.update(Xf)
                 st = core.dstr(det.drift_state)
             except Exception as e:
                 st = exc(e)
@@ -461,7 +462,19 @@ def gen_batch(rng, idx, quick):
             X = np.round(X * 8) / 8
         kind = "setref" if (i > 0 and rng.random() < .12) else "u"
         ops.append([kind, [float(v) for v in X.reshape(-1)]])
-    return {"id": idx, "mode": "batch", "alpha": alpha, "boot": boot, "count_ubound": ub, "cplb": cplb, "m": m, "ops": ops}
+    case = {"id": idx, "mode": "batch", "alpha": alpha, "boot": boot, "count_ubound": ub, "cplb": cplb, "m": m, "ops": ops}
+    if idx % 5 == 3:
+        # integral observations in a narrow integer dtype (pixel-like uint8 with min + max above 255, int32 near 2^31, int8, int16):
+        # the tree, the counts and the decisions are those of the values
+        dt, lo, hi = [("uint8", 100, 256), ("int32", 2 ** 31 - 4000, 2 ** 31 - 1), ("int8", 60, 128), ("int16", 20000, 32768)][(idx // 5) % 4]
+        ops2, lvl = [], 0
+        for kind, flat in ops:
+            n = max(4, len(flat) // m)
+            lvl = int(rng.integers(0, (hi - lo) // 2)) if rng.random() < .4 else lvl
+            X = np.clip(rng.integers(lo, lo + (hi - lo) // 2, size=(n, m)) + lvl, lo, hi - 1)
+            ops2.append([kind, [float(v) for v in X.reshape(-1)]])
+        case.update(ops=ops2, dtype=dt)
+    return case
 
 
 def fixed_streams():
